@@ -14,7 +14,11 @@ CLAIM = dict(
          '(against the closed-form integral), and square_trapezium = trapezium of squares; (ii) enumerates those behaviours as cases '
          'replayed on the real Mesh1D/Mesh2D; (iii) validates event by event recorded executions of the real code on non-uniform dyadic '
          'grids with 2..12 nodes per direction (spacings 2^-k, k <= 9), 1..4 variables, integer (dyadic) data: every returned number is '
-         'exact and is recomputed by TLC from the model state.',
+         'exact and is recomputed by TLC from the model state. Special families: grids translated to large coordinates (offsets +-64, +-4096, +-2^20, '
+         'and straddling 0) with interpolation on both sides of every node at dyadic distances 2^-12..2^-18 (exact) and at 1e-6..4e-6 (units); nearly '
+         'uniform grids with spacings h(1 + e 2^-K), K = 12..30, in one or both directions, and exactly uniform ones, whose trapezium / square_trapezium '
+         'values are recomputed exactly by TLC as split numbers H + L/2^F; file round trips into meshes that hold other data on another grid with equally '
+         'many, fewer and more nodes, checked through every accessor.',
     note='Exact (decided by TLC on integers/rationals): all access paths, interpolation at nodes / mid-cells / dyadic points, 1-D and 2-D '
          'trapezium, square_trapezium. Harness measurements judged by guards in Trace_Mesh.tla: interpolation at arbitrary interior points '
          '(>= 1e-6 from every node; double-double reference, guard 4 units of 8 eps max|data|, a-priori bound 2.5 eps max|data|) and the '
@@ -128,6 +132,30 @@ def _count_ops(ctx, events_path, label, need1, need2):
     ctx.notes.append('%s: events per (kind, op): %s' % (label, ', '.join('%s/%s=%d' % (k[0], k[1], v) for k, v in sorted(seen.items()))))
 
 
+def _count_families(ctx, cases_path, events_path):
+    """the special input families must be present: large coordinates, near-node points on both sides, nearly uniform grids, round trips into
+    meshes with equally many / fewer / more nodes"""
+    cases = {c['cid']: c for c in vlib.read_ndjson(cases_path)}
+    n = dict(near_dyadic=0, near_1e6=0, large_offset_interp=0, fine_trap1=0, fine_trap2=0, fine_sq=0, fine_both=0, rt_same=0, rt_fewer=0, rt_more=0, two_node=0)
+    for e in vlib.read_ndjson(events_path):
+        c = cases[e['cid']]
+        if e['op'] in ('interp', 'interp_any') and 'near' in e:
+            n['near_dyadic' if e['op'] == 'interp' else 'near_1e6'] += 1
+        if e['op'] in ('interp', 'interp_any') and abs(c.get('ox', 0)) >= 4096:
+            n['large_offset_interp'] += 1
+        if e['op'] in ('trap', 'sq_trap') and e.get('rl', 0) != 0:
+            n['fine_trap1' if e['kind'] == 'm1' else ('fine_sq' if e['op'] == 'sq_trap' else 'fine_trap2')] += 1
+            if c.get('kx', 0) > 0 and c.get('ky', 0) > 0:
+                n['fine_both'] += 1
+        if e['op'] == 'roundtrip' and not e['panic']:
+            n['rt_same' if e['m0'] == e['nn'] else ('rt_fewer' if e['m0'] < e['nn'] else 'rt_more')] += 1
+        if e['op'] in ('trap', 'interp') and len(c['xn']) == 2:
+            n['two_node'] += 1
+    if min(n.values()) == 0:
+        raise vlib.ToolError('vacuity: an input family is missing from the harness-generated cases: %s' % n)
+    ctx.notes.append('input families (events): %s' % n)
+
+
 def _no_files_left(ctx):
     left = glob.glob(os.path.join(ctx.out, '**', 'mesh_rt_*.dat'), recursive=True)
     for p in left:
@@ -160,6 +188,7 @@ def check(ctx):
     cases = ctx.gen('mesh')
     ev = ctx.exec('mesh', cases, env=env)
     _count_ops(ctx, ev, 'harness-generated cases', OPS1, OPS2)
+    _count_families(ctx, cases, ev)
     ctx.validate('Trace_Mesh', ev, cases, 'mesh', nontrivial=_nontrivial)
     ctx.exhaustive_parts.append('every node count 2..12 (1-D) and every shape 2..12 x 2..12 (2-D) occurs, with 1..4 variables')
     _no_files_left(ctx)
@@ -170,7 +199,7 @@ def check(ctx):
                      'TLC-generated grids contain cell widths 3 and 5: dyadic points in such cells are logged rounded to 2^-20 and compared with the model rational (interp_q).')
     ctx.assumptions.append('interpolation at arbitrary points: points at distance >= 1e-6 from every node (the 1e-7 snapping window is excluded as the property says)')
     return ctx.finish(
-        rule='cases: (i) every TLC-enumerated behaviour of MC_Mesh (write histories; data/linear/bilinear cases on all small grids), (ii) per node count 2..12 '
+        rule='(0) plus the families named in the claim (large offsets / near-node points, nearly uniform grids, stale receiving meshes); cases: (i) every TLC-enumerated behaviour of MC_Mesh (write histories; data/linear/bilinear cases on all small grids), (ii) per node count 2..12 '
              '1-D histories (f64: interpolation at every node, every mid-cell, random dyadic and arbitrary interior points, trapezium, file round trip; Rat: access '
              'paths), (iii) per shape 2..12 x 2..12 2-D histories (set / index / assign / apply writes incl. writes to non-existent nodes, reads through get, index, '
              'cross-sections, var_as_matrix; trapezium and square_trapezium). An event is non-trivial if the store is non-zero, it panicked, or it is a float '
